@@ -442,6 +442,81 @@ def run(prog, rep, tier='quick', config='default'):
     else:
         rep.ok('R11g', 'writer-formats-losslessly', fn=writer.name, detail='no rounding / truncating / float operation is reachable from txs_to_csv_table (%d functions)' % len(grp))
 
+    # ------------------------------------------------------------------ R11l: free text passes unchanged in both directions
+    # the memo is the one free-text column: what the writer prints for it is CsvTx.memo itself and what the reader stores is the cell
+    # itself — no prefixing, stripping, trimming, replacing or re-formatting on either side (an escape that is not applied to text that
+    # already looks escaped changes such a memo on every round trip)
+    TEXT_EDIT = {'strip_prefix', 'strip_suffix', 'trim', 'trim_start', 'trim_end', 'trim_matches', 'trim_start_matches', 'trim_end_matches', 'replace',
+                 'replacen', 'to_lowercase', 'to_uppercase', 'to_ascii_lowercase', 'to_ascii_uppercase', 'truncate', 'split_off', 'drain', 'pop',
+                 'push', 'push_str', 'insert', 'insert_str', 'format', 'repeat', 'split', 'splitn', 'split_once', 'rsplit', 'chars', 'bytes',
+                 'escape_default', 'escape_debug', 'lines', 'get', 'index', 'retain', 'remove_matches', 'concat', 'join', 'add'}
+
+    def text_edits(f0, seeds_calls, fn_values):
+        """text-editing calls among `seeds_calls` and in the bodies of the crate functions / closures they involve"""
+        seen, work, hits = set(), [], []
+        def consider(f_, calls):
+            for x in calls:
+                is_str = re.search(r'str>?::|string::String|alloc::fmt::format|std::fmt::format', x.callee + ' ' + x.decl) or x.callee.endswith('fmt::format')
+                if is_str and x.short in TEXT_EDIT and not (x.short in ('get', 'index', 'remove', 'insert') and 'HashMap' in x.callee):
+                    hits.append((f_, x))
+                h = prog.resolve(x.callee, f_.crate)
+                if h is not None and h.crate == f_.crate and h.name not in seen and h.name.startswith(writer.name.rsplit('::', 1)[0]):
+                    seen.add(h.name)
+                    work.append(h)
+                for a in x.args:
+                    if a.get('k') == 'const' and a.get('def'):
+                        h2 = prog.resolve(a['def'], f_.crate)
+                        if h2 is not None and h2.kind in ('Fn', 'AssocFn') and h2.name not in seen and h2.name.startswith(writer.name.rsplit('::', 1)[0]):
+                            seen.add(h2.name)
+                            work.append(h2)
+        consider(f0, seeds_calls)
+        for h in fn_values:
+            if h.name not in seen:
+                seen.add(h.name)
+                work.append(h)
+        while work:
+            h = work.pop()
+            for g2 in [h] + prog.closures_of(h):
+                consider(g2, g2.calls)
+        return hits
+    if agg is not None and 'memo' in agg['r']['fields']:
+        o = agg['r']['ops'][agg['r']['fields'].index('memo')]
+        org = mir.provenance(reader, o, follow_all_call_args=True)
+        vals = [prog.by_crate[reader.crate].get(k[len('closure:'):]) for k in org.aggs if k.startswith('closure:')]
+        hits = text_edits(reader, org.calls, [v for v in vals if v is not None])
+        if hits:
+            f_, x = hits[0]
+            rep.violation('R11l', 'memo-read-as-written', where=x.where(), fn=f_.name,
+                          detail='the memo cell is edited on its way into the record (%s): a memo that already looks like the edited form is changed by '
+                                 'writing and reading it back' % x.short)
+        else:
+            rep.ok('R11l', 'memo-read-as-written', fn=reader.name, where=reader.where(agg), detail='CsvTx.memo is the cell itself')
+    if 'memo' in arms if isinstance(arms, dict) else False:
+        c0 = arms['memo'][0]
+        sw = cell_fn.blocks[c0.target]['term'] if c0.target in cell_fn.blocks else None
+        region = set()
+        if sw and sw['t'] == 'switch':
+            true_t = sw['otherwise'] if any(v == 0 for v, _ in sw['targets']) else None
+            if true_t is not None:
+                # up to the point where the arms join again
+                region = {b for b in cell_fn.blocks if cell_fn.dominates(true_t, b)}
+        calls = [x for x in cell_fn.calls if x.bb in region]
+        vals = []
+        for b in region:
+            for st in cell_fn.blocks[b]['stmts']:
+                if st['r']['rv'] == 'agg' and st['r']['kind'].startswith('closure:'):
+                    h = prog.by_crate[cell_fn.crate].get(st['r']['kind'][8:])
+                    if h is not None:
+                        vals.append(h)
+        hits = text_edits(cell_fn, calls, vals)
+        if hits:
+            f_, x = hits[0]
+            rep.violation('R11l', 'memo-written-as-held', where=x.where(), fn=f_.name,
+                          detail='the memo is edited before it is written (%s): unless the reader undoes exactly that edit for every text, the memo read '
+                                 'back differs' % x.short)
+        else:
+            rep.ok('R11l', 'memo-written-as-held', fn=cell_fn.name, where=c0.where(), detail='the memo column prints CsvTx.memo itself')
+
     # ------------------------------------------------------------------ R11j: the converters' CSV writer emits table cells unchanged
     STR_XFORM = {'replace', 'replacen', 'trim', 'trim_start', 'trim_end', 'trim_matches', 'trim_start_matches', 'trim_end_matches',
                  'to_lowercase', 'to_uppercase', 'to_ascii_lowercase', 'to_ascii_uppercase', 'truncate', 'split', 'splitn', 'rsplit',
